@@ -10,6 +10,7 @@ ASSUMPTIONS = [
     'independent decoder: 24-byte little-endian header by positional arithmetic; asserts known command, magic = cmd XOR 0xFFFFFFFF, length = |payload|, checksum = byte sum mod 2^32',
     'H02a: AdbMessage(cmd, a0, a1, data) built directly; a0, a1 symbolic over [0, 2^32) (and out of range for the must-raise VCs); payload bytes symbolic',
     'H02b: checksum() on concrete large payloads with sparse symbolic bytes (sum handled by one z3 Sum term)',
+    'H02d: two concurrent operations (threads under the scheduler with preemption bound 1, asyncio tasks with all completion orders): only the framing oracle is asserted here, results are judged by C06',
     'H02c: whole sessions against the reactive device simulator with symbolic remote ids / payloads / file bytes; in-memory transport',
 ]
 BOUNDS = {
@@ -132,7 +133,9 @@ def h_session(ctx, mods, shape):
             ctx.check(len(p.payload) <= maxdata, 'WRTE payload <= maxdata')
 
 
-HARNESSES = {'pack': h_pack, 'range': h_range, 'checksum': h_checksum, 'session': h_session}
+from .c06 import h_threads, h_async
+
+HARNESSES = {'pack': h_pack, 'range': h_range, 'checksum': h_checksum, 'session': h_session, 'threads': h_threads, 'async': h_async}
 
 
 def shapes(tier, seed):
@@ -154,4 +157,10 @@ def shapes(tier, seed):
         if not q:
             out.append({'h': 'session', 'impl': impl, 'maxdata': 65536, 'fsize': 150000, 'auth': False})
             out.append({'h': 'session', 'impl': impl, 'maxdata': 1 << 20, 'fsize': 150000, 'auth': False})
+    # concurrent streams: header and payload of one message stay back-to-back on the wire (the results themselves are judged by C06)
+    sh = ['shell', {'lens': [1]}]
+    out.append({'h': 'async', 'ops': [sh, sh], 'judge_results': False, 'max_paths': 60000})
+    out.append({'h': 'async', 'ops': [sh, ['push', {'size': 3000}]], 'judge_results': False, 'max_paths': 60000})
+    out.append({'h': 'threads', 'ops': [sh, sh], 'preempt': 1, 'yields': False, 'judge_results': False, 'max_paths': 60000})
+    out.append({'h': 'threads', 'ops': [sh, ['push', {'size': 3000}]], 'preempt': 1, 'yields': False, 'judge_results': False, 'max_paths': 60000})
     return out
